@@ -27,7 +27,7 @@ func (x *Exec) special(st *State, in ssa.Instruction, key string, f *ssa.Functio
 		r := x.freshConst(st, "err", SIface)
 		st.assume(Not(Eq(itag(r), IntLit(0))), "errors.New returns non-nil")
 		return r, true
-	case "sort.Strings", "slices.Sort":
+	case "sort.Strings", "slices.Sort", "sort.Sort":
 		// in-place sort: the argument's origin cell receives sortseq(bag(s))
 		if in == nil {
 			return nil, false
@@ -37,6 +37,19 @@ func (x *Exec) special(st *State, in ssa.Instruction, key string, f *ssa.Functio
 			return nil, false
 		}
 		argV := ci.Common().Args[0]
+		if key == "sort.Sort" {
+			// only sort.Sort(sort.StringSlice(x)) for a []string x
+			mi, ok := argV.(*ssa.MakeInterface)
+			if !ok {
+				return nil, false
+			}
+			ct, ok := mi.X.(*ssa.ChangeType)
+			if !ok || ct.Type().String() != "sort.StringSlice" {
+				return nil, false
+			}
+			argV = ct.X
+			args = []Value{x.get(st, argV)}
+		}
 		if _, isStrSlice := argV.Type().Underlying().(*types.Slice); !isStrSlice {
 			return nil, false
 		}
